@@ -208,7 +208,7 @@ pub fn run_c06(args: &Args) -> i32 {
     report.set("variants", json!(ALL_VARIANTS.iter().map(|v| v.name()).collect::<Vec<_>>()));
     report.set("distinct_step_outcomes", json!(outcomes.len()));
     report.set("exhaustive", json!(true));
-    report.set("rule", json!("every history of <= `depth` steps over the 35-step alphabet H from 4 base states, executed in lock-step on the six variants; every step result and, at the end of every history, the full observable dump (all elements, values, keys, counts, aliases, indexes, index searches, four traversals per node) must be identical. states = distinct dumps."));
+    report.set("rule", json!("every history of <= `depth` steps over the 37-step alphabet H from 5 base states, executed in lock-step on the six variants; every step result and, at the end of every history, the full observable dump (all elements, values, keys, counts, aliases, indexes, index searches, four traversals per node) must be identical. states = distinct dumps."));
     report.assume("values, keys, aliases and ids outside the alphabet are not covered; histories longer than the depth are not covered");
     report.finish()
 }
@@ -431,6 +431,6 @@ pub fn run_c05(args: &Args) -> i32 {
     report.set("variants", json!(variants.iter().map(|v| v.name()).collect::<Vec<_>>()));
     report.set("maintenance_ops", json!(MAINTS.iter().map(|m| format!("{m:?}")).collect::<Vec<_>>()));
     report.set("exhaustive", json!(true));
-    report.set("rule", json!("at every node of the history tree (all histories of <= depth steps over H from 4 base states) each maintenance operation (and every ordered pair, for histories up to the stated length) is applied to a freshly replayed database; the full ordered dump must equal that of the never-maintained database, and must still be equal after each of 3 (quick) / 7 (thorough) further mutating steps"));
+    report.set("rule", json!("at every node of the history tree (all histories of <= depth steps over H from 5 base states) each maintenance operation (and every ordered pair, for histories up to the stated length) is applied to a freshly replayed database; the full ordered dump must equal that of the never-maintained database, and must still be equal after each of 3 (quick) / 7 (thorough) further mutating steps"));
     report.finish()
 }
